@@ -62,6 +62,8 @@ class MemStateBackend(BaseStateBackend[Params, Result]):
         self._history.clear()
         self._results.clear()
         self._exceptions.clear()
+        self._workflow_data.clear()
+        self._runner_contexts.clear()
         self._workflow_types.clear()
         self._workflow_runs.clear()
         self._workflow_sub_invocations.clear()
